@@ -117,6 +117,54 @@ def decLine (bs : Bytes) : String :=
   | .err => "err"
   | .panic => "panic"
 
+/-! c15mpt large inputs (same construction as go/harness/suite_c15mpt.go: bigNodeInput / bigRecord) -/
+
+def patternBytes (n : Nat) : Bytes := (List.range n).map (fun i => UInt8.ofNat ((i * 7 + 3) % 256))
+
+def strB (s : String) : Bytes := s.toList.map (fun c => UInt8.ofNat c.toNat)
+
+def bigNodeInput (shape : String) (n : Nat) : Bytes :=
+  let tr := le64 1 ++ le64 2
+  let rep := fun (c : UInt8) => List.replicate n c
+  let cat := fun (t : UInt8) (parts : List Bytes) => t :: (tr ++ parts.flatten)
+  match shape with
+  | "leafval" => cat 2 [strB "ab:cd:", patternBytes n]
+  | "leafseps" => cat 2 [strB "ab:cd:", rep 58]
+  | "leafpath" => cat 2 [strB "ab:", rep 97, strB ":v"]
+  | "leafprefix" => cat 2 [rep 98, strB ":cd:v"]
+  | "fullval" => cat 4 [List.replicate 16 58, patternBytes n]
+  | "fullseps" => cat 4 [rep 58]
+  | "fullhex" => cat 4 [rep 97, List.replicate 16 58]
+  | "extkey" => cat 8 [strB "ab:", patternBytes n]
+  | "extpath" => cat 8 [rep 97, strB ":", List.replicate 32 9]
+  | "nosep" => cat 2 [rep 97]
+  | _ => cat 1 [patternBytes n]
+
+def be64 (x : Nat) : Bytes := (List.range 8).map (fun k => UInt8.ofNat ((x >>> (8 * (7 - k))) % 256))
+
+def bigKey (i : Nat) : Bytes :=
+  let h := asciiHexB (be64 ((i * 2654435761) % 18446744073709551616))
+  h ++ h ++ h ++ h
+where asciiHexB (b : Bytes) : Bytes := (hex b).toList.map (fun c => UInt8.ofNat c.toNat)
+
+def bigRecord (shape : String) (n : Nat) : Bytes :=
+  let hdr := fun (k : Nat) => (0x81 : UInt8) :: 0xa5 :: (strB "Nodes" ++ (0xdf : UInt8) :: Verif.DeadNodes.u32 k)
+  let entries := fun (k : Nat) => (List.range k).flatMap (fun i => (0xd9 : UInt8) :: 64 :: (bigKey i ++ [0xc3]))
+  match shape with
+  | "half" => let e := entries n; hdr n ++ e.take (e.length / 2)
+  | "badlast" => let e := entries n; hdr n ++ (e.take (e.length - 1) ++ [1])
+  | "longkey" => hdr 1 ++ (0xdb : UInt8) :: (Verif.DeadNodes.u32 n ++ List.replicate n 97 ++ [0xc3])
+  | "nested" => (0x82 : UInt8) :: 0xa1 :: 120 :: (List.replicate n 0x91 ++ (0xc0 : UInt8) :: 0xa5 :: (strB "Nodes" ++ [0x81, 0xa2, 97, 98, 0xc3]))
+  | _ => hdr n ++ entries n
+
+def decBigLine (bs : Bytes) : String :=
+  match decode bs with
+  | .ok r =>
+    let e := encode r
+    "ok " ++ toString e.length ++ " " ++ hex (sha3 e) ++ " " ++ (if hasHash r then hex (sha3 (hashBytes r)) else "-")
+  | .err => "err"
+  | .panic => "panic"
+
 /-! c15mpt dead-node records -/
 
 def asciiHex (b : Bytes) : Bytes := (hex b).toList.map (fun c => UInt8.ofNat c.toNat)
@@ -263,6 +311,11 @@ def step (s : St) (w : List String) : St × String :=
     match unhex b with
     | some bs => (s, decLine bs)
     | none => (s, "bad-op")
+  | ["decbig", shape, n] => (s, decBigLine (bigNodeInput shape n.toNat!))
+  | ["dnbig", shape, n] =>
+    (s, match Verif.DeadNodes.pruneKeys (bigRecord shape n.toNat!) with
+        | some _ => "ok left=-"
+        | none => "ok left=1")
   | ["dnenc", l] =>
     match unhexList l with
     | some encs => (s, dnencLine encs)
